@@ -405,3 +405,21 @@ fn discount_average_strat<const N: usize>() {
     kani::cover!(p.strat == 2.0, "gamma two reachable");
 }
 for_lengths!(discount_average_strat, c08_discount_average_strat_n1, c08_discount_average_strat_n2, c08_discount_average_strat_n3, kani::stub(f64::powf, powf_observer));
+
+// ---------------------------------------------------------------------------------------------
+// IEEE comparison facts assumed by the Verus float prelude (loop-free over ALL pairs: complete)
+// ---------------------------------------------------------------------------------------------
+
+/// K.ieee_cmp_flip: a < b <=> b > a; == is symmetric and agrees with partial_cmp; an unordered pair
+/// is unordered both ways (the axioms of ax_obeys in contracts/verus/prelude/floats.rs).
+#[kani::proof]
+fn ieee_cmp_flip() {
+    use std::cmp::Ordering;
+    let a: f64 = kani::any();
+    let b: f64 = kani::any();
+    assert!((a.partial_cmp(&b) == Some(Ordering::Less)) == (b.partial_cmp(&a) == Some(Ordering::Greater)), "K.ieee_cmp_flip: Less flips to Greater");
+    assert!((a.partial_cmp(&b) == Some(Ordering::Equal)) == (b.partial_cmp(&a) == Some(Ordering::Equal)), "K.ieee_cmp_flip: Equal is symmetric");
+    assert!(a.partial_cmp(&b).is_none() == b.partial_cmp(&a).is_none(), "K.ieee_cmp_flip: unordered both ways");
+    assert!((a == b) == (a.partial_cmp(&b) == Some(Ordering::Equal)), "K.ieee_cmp_flip: == agrees with partial_cmp");
+    assert!((a < b) == (a.partial_cmp(&b) == Some(Ordering::Less)) && (a > b) == (a.partial_cmp(&b) == Some(Ordering::Greater)), "K.ieee_cmp_flip: < and > agree with partial_cmp");
+}
